@@ -125,6 +125,8 @@ type e1run struct {
 	mp       *e1maps
 	c16      func(r *e1run, k int)
 	sizeHook func(r *e1run, ok bool)
+	finalHook func(r *e1run)
+	faulted  bool // a storage fault was injected: the reference model no longer applies, only retention rules do
 	medNext  []int
 	medCount []map[int]int
 	medEnd   []map[int]int64
@@ -190,6 +192,9 @@ func (r *e1run) apply(u wunit) bool {
 		return false
 	}
 	r.opData = append(r.opData, data)
+	if r.faulted {
+		return true
+	}
 	r.model.write(u, data)
 	// a cut decision that hinges on less than 2 ns follows the muxer (either outcome satisfies the property)
 	if n := len(r.model.cuts); n > 0 && r.model.cuts[n-1].either && r.model.cuts[n-1].atWrite == r.model.nwrites-1 {
@@ -206,11 +211,35 @@ func (r *e1run) safeGet(path string) (rr *respRec) {
 		if p := recover(); p != nil {
 			buf := make([]byte, 4096)
 			buf = buf[:runtime.Stack(buf, false)]
-			r.add("ALL", "handler-panic", "GET %s panics after write %d: %v; ops %s\n%s", canon(path), len(r.ops)-1, p, r.opsString(), trimGoStack(string(buf)))
+			msg := fmt.Sprint(p)
+			if len(msg) > 48 {
+				msg = msg[:48]
+			}
+			r.add("ALL", "handler-panic:"+firstLibFrame(string(buf))+":"+msg, "GET %s panics after write %d (storage fault injected=%v): %v; ops %s\n%s", canon(path), len(r.ops)-1, r.faulted, p, r.opsString(), trimGoStack(string(buf)))
 			rr = &respRec{Status: -3, Hdr: http.Header{}}
 		}
 	}()
 	return muxGet(r.mi.m, path)
+}
+
+// firstLibFrame names the innermost library function of a stack dump.
+func firstLibFrame(s string) string {
+	for _, l := range strings.Split(s, "\n") {
+		if i := strings.Index(l, "gohlslib/v2."); i >= 0 && !strings.Contains(l, "zz_verif") && !strings.Contains(l, "safeGet") && !strings.HasPrefix(strings.TrimSpace(l), "/") {
+			f := l[i+len("gohlslib/v2."):]
+			if j := strings.IndexByte(f, '('); j > 0 && !strings.HasPrefix(f, "(") {
+				f = f[:j]
+			} else if k := strings.Index(f, ")."); k > 0 {
+				rest := f[k+2:]
+				if j := strings.IndexByte(rest, '('); j > 0 {
+					rest = rest[:j]
+				}
+				f = f[:k+2] + rest
+			}
+			return f
+		}
+	}
+	return "?"
 }
 
 func trimGoStack(s string) string {
